@@ -242,6 +242,8 @@ def check(ctx):
     _d2(ctx)
     _d3(ctx)
     _d4(ctx)
+    from . import c29
+    c29._t3(ctx)  # named sets come from the rename tables: defaults are appended to a deep copy of the per-Einsum entry (rule ids C29-T3/T5)
 
 
 VARIANTS = [
